@@ -969,7 +969,20 @@ fn check_index(case: &Value) -> Vec<Violation> {
             deletion_vector: Arc::new(dv.clone()),
         }).collect();
         RowIdIndex::new(&fi).map(|ix| {
-            let mut probes: BTreeSet<u64> = model.keys().copied().chain(deleted_ids.iter().copied()).collect();
+            let mut probes: BTreeSet<u64> = if model.len() <= 1000 {
+                model.keys().copied().chain(deleted_ids.iter().copied()).collect()
+            } else {
+                // long fragments: the ends, the ids around the first holes and one / two
+                // offset-widths behind them, the deleted ids
+                let keys: Vec<u64> = model.keys().copied().collect();
+                let mut c: BTreeSet<u64> = keys.iter().take(3).chain(keys.iter().rev().take(3)).copied().collect();
+                c.extend(deleted_ids.iter().copied());
+                for w in keys.windows(2).filter(|w| w[1] > w[0] + 1).take(4) {
+                    let h = w[0] + 1;
+                    c.extend([h - 1, h, h + 1, h + W16 - 1, h + W16, h + W16 + 1, h + 2 * W16, h + 2 * W16 + 1]);
+                }
+                c
+            };
             for p in probes.clone() {
                 probes.insert(p.wrapping_add(1));
                 probes.insert(p.wrapping_sub(1));
